@@ -90,6 +90,12 @@ LEVEL_TEXT = (
     "they were); inconsistent_converges: FULL convergence whatever the view of the first turn. The former negation is kept as a "
     "regression of the OLD turn `loopStepIOld`: inconsistent_nonempty_witness (C03-N6, two corpus witnesses, tied on the real "
     "operator's cycles; repaired by 30557a0). "
+    "Events that arrive WHILE `apply` sleeps (Model/C03_Relist; seed C03f): the watch stream re-established re-lists the object AS IT "
+    "IS (type=None, the version processed last); `loopStepR`: the sleep is interrupted without the touch and the listed event is "
+    "pending (relist_in_sleep_leaves_event, every state); relist_converges: FULL convergence across such a re-listing; the worker "
+    "that drops a listed event repeating the processed version (`loopStepRSkip`) is stuck for good from EVERY such state "
+    "(relist_skipped_stuck) — relist_skipped_witness, replayed through the corpus (relist_*); tied on the real operator's cycles "
+    "(`relists` of C03.run: the interrupted turn and the re-armed sleep, tick by tick). "
     "Repaired in /repo and kept as regressions: C03-F1 (2ae938f), C03-F3 (d1b2dc4), C03-F5 (1c8f3dd, finalizer "
     "functions only — the rest was C03-N2, 608a57d + 02af7ce), C03-F7 (7224f57), C03-N1 "
     "(b7bf39c, sleeping_handler_woken_instance), C03-N3 (f7d6401, shared_id_regression), C03-N4 (40d09eb), C03-N6 (30557a0), 5dff3c1 (lost echo + constant on.event result). C03-F6 (name-addressed patches "
@@ -113,6 +119,7 @@ THEOREMS = [("Kopf.Props.C03", "Kopf.C03." + n) for n in [
     "inconsistent_empty", "inconsistent_nonempty_revisited", "inconsistent_converges", "inconsistent_nonempty_witness",
     "skip_path_purges", "last_handled_written_only_by_closing_pass", "last_handled_kept_by_skipping_turns",
     "closing_ignores_unselected_records",
+    "relist_in_sleep_leaves_event", "relist_converges", "relist_skipped_stuck", "relist_skipped_witness",
     "pass_ignores_unselected_records", "deselected_unfinished_instance", "terminates_stable_partial", "unstable_filters_witness", "filtersStable_of_essence"]]
 RULE = ("seeded histories of one object: 1-4 change handlers (create/update/resume/delete, label filters, retries/timeout/backoff/"
         "errors, scripts with finitely many temporary/arbitrary/permanent failures then ok, handlers that take time (8 %), ONE id "
@@ -133,12 +140,18 @@ RULE = ("seeded histories of one object: 1-4 change handlers (create/update/resu
         "a timer (returns nothing) or a daemon (obeys its stop flag) on the resource next to the change handlers — the framework then "
         "classifies every cycle from the LIVE body it keeps for them and requires its finalizer for every object — mostly followed by an "
         "edit whose event is lost with a cut of the watch stream (410): the re-listing has to bring the change to the cycle (histogram "
-        "family_class spawning(...)); judged by the oracle, skipped by the tie (`spawning-handlers`). One case = one history; distinct & non-trivial = distinct (outstanding "
+        "family_class spawning(...)); judged by the oracle, skipped by the tie (`spawning-handlers`). A delivery-timing family (add_relists, 30 % / 25 %, a generator of its own): 1-4 RE-LISTINGS of the kind "
+        "with nothing changed (`relist`: other kinds' traffic moved the cluster-wide version on, the history is compacted, the watch is "
+        "answered 410 — as an ERROR event or as HTTP 410 — and kopf lists again: the object arrives as it is, same version) inside the "
+        "sleeps till a retry, at their ends, in the tick of an edit, during downtimes, in the silent tail and after it settled "
+        "(histograms relisted_event, family_class relist:*). One case = one history; distinct & non-trivial = distinct (outstanding "
         "change, restart kinds, tail pass shapes, final classification) with at least one handler-reason pass or restart. Besides, "
         "the corpus holds one history OUTSIDE the quantifier (`guard_witness`: a deletion handler whose filter reads the framework's "
         "own finalizer): never judged by the oracle, its cycles are compared turn by turn with the Lean instance of "
         "unstable_filters_witness (the loop never settles)")
-TRUSTED = ["harness/sim (virtual-time loop, fake API server, scripted handlers, attribute-level observation of kopf)",
+TRUSTED = ["harness/props/sim_c03.py `relist`: the fake server's resource versions are cluster-wide; `compact()` alone never expired the "
+           "version the operator resumes from unless an object of the kind had changed, so a same-version re-listing could not occur before",
+           "harness/sim (virtual-time loop, fake API server, scripted handlers, attribute-level observation of kopf)",
            "harness/props/sim_c03.py (kill hooks on the in-flight PATCH, windowed connection faults, stream cuts, patch-function action)",
            "harness/sim/observe.py: the placeholder that tells a written `memory.fully_handled_once` from an unwritten one during a pass reads "
            "like the flag's real value (white-box m3: an always-falsy placeholder hid a change that reads the flag inside the pass)",
@@ -241,6 +254,7 @@ SIG_N5 = {"site": "watching.streaming_block", "shape": "graceful stop never fini
 SIG_N6 = {"site": "process_resource_causes", "shape": "cycle still awaiting the version of its own last write, with a non-empty patch that brings no event: the wait for the consistency deadline is skipped, the handlers are skipped, no event follows — handling never resumes"}
 SIG_F4 = {"site": "process_changing_cause", "shape": "handler finished on an older state of a still-open cycle is not re-run for the newer state, yet last-handled becomes the newer state"}
 SIG_N7 = {"site": "process_changing_cause", "shape": "namesake's record left out with its subrefs: the records of its sub-handlers are never purged"}
+SIG_RL = {"site": "queueing.worker", "shape": "the sleep till the handlers' retry was interrupted by a new event (e.g. the object re-listed as it is when the watch stream was re-established), and that event was never processed: nothing sleeps, nothing touches the object, no event follows — handling never resumes"}
 SIG_N8 = {"site": "subhandling.execute", "shape": "one function registered for two causes runs sub-handlers: a sub-handler of the current cause inherits the finished record of its namesake's sub-handler and is never called"}
 
 
@@ -453,6 +467,23 @@ class Facts:
                                   and c["cause"].get("reason") in KINDS and not mb.get("remaining_patch")
                                   and float(ct) > float(c.get("loop_t0", ct)) and (ap.get("patch") or ap.get("fns"))
                                   and not (set(ap.get("fns") or []) & {"block_deletion", "allow_deletion"}) and quiet)
+        # lost wake-up at the worker: the object's last cycle had delays to sleep, its sleep was cut short (it ended before the
+        # earliest delay elapsed) without the touch — the framework's "sleeping was interrupted by new changes": an event for
+        # the object had arrived (every delivery timing is in the quantifier: e.g. the object re-listed AS IT IS when the watch
+        # stream was re-established) — and no cycle ever processed that event, although the operator lived on
+        self.lost_interrupt = None
+        if mine and self.final is not None:
+            c = mine[-1]
+            ap = c.get("apply") or {}
+            ds = [float(d) for d in (ap.get("delays") or [])]
+            alive = not any(m["what"] in ("killed", "stopped") and not m.get("final") and m.get("inc") == self.last_inc for m in tr["marks"])
+            sent = any(r.get("who") == who and r["wall"] >= float(ap.get("t", c["t0"])) for r in self.patches)
+            if ds and alive and not sent and c.get("error") is None and ap.get("t_end") is not None \
+                    and float(ap["t_end"]) < float(ap["t"]) + min(min(ds), float(_KEEPALIVE())) and float(ap["t_end"]) < self.end - self.tq:
+                lists = [r["wall"] for r in tr["requests"] if r["method"] == "GET" and r["path"].rstrip("/").endswith("/kopfexamples")
+                         and not (r.get("query") or {}).get("watch") and float(ap["t"]) <= r["wall"] <= float(ap["t_end"]) + 1.0]
+                self.lost_interrupt = {"cycle": c["i"], "slept_from": ap["t"], "interrupted_at": ap["t_end"], "delays": ds,
+                                       "listings_of_the_kind_then": lists}
         # what the cross-uid writes carried: annotation keys set / deleted on the successor
         self.cross_set, self.cross_del = set(), set()
         for r in self.cross_uid:
@@ -656,6 +687,14 @@ def oracle(ctx: Ctx, sc: dict, tr: dict) -> dict:
                      "no request, the sleep and the touch were skipped", {**rep, "final": f.final}, SIG_N1, tag="C03-N1")
                 out["class"] = "lost-wakeup"
                 return out
+            if f.lost_interrupt:
+                fail(f"the deletion stopped for good with the object still held by the framework's finalizer: the last cycle (#{f.lost_interrupt['cycle']}) "
+                     f"slept till the retry of its handlers (delays {f.lost_interrupt['delays']}), the sleep was interrupted at "
+                     f"t={f.lost_interrupt['interrupted_at']:.3f} by a new event for the object (listings of the kind at "
+                     f"{f.lost_interrupt['listings_of_the_kind_then']}: the watch stream was re-established and re-sent the object as it is) "
+                     f"without the touch, and NO cycle processed that event", {**rep, "final": f.final, "lost": f.lost_interrupt}, SIG_RL)
+                out["class"] = "lost-wakeup"
+                return out
             if f.lost_wait:
                 fail("the deletion stopped for good with the object still held by the framework's finalizer: the last cycle was "
                      "still awaiting the version of the framework's own last write; its patch was non-empty, so the wait for the "
@@ -705,6 +744,17 @@ def oracle(ctx: Ctx, sc: dict, tr: dict) -> dict:
              "that produced no request; that counted as a change, so the sleep and the touch were skipped and no event follows",
              {**rep, "last_handled": base, "essence": f.ess, "annotations": sorted((f.final["metadata"].get("annotations") or {}))},
              SIG_N1, tag="C03-N1")
+        out["class"] = "lost-wakeup"
+        return out
+    if f.lost_interrupt and not f.blind and (base != f.ess or any(OWN_PREFIX + h.replace("/", ".") in (f.final["metadata"].get("annotations") or {})
+                                                                   for h in _all_ids(sc))):
+        fail(f"handling stopped for good with handlers still waiting for their retry: the last cycle (#{f.lost_interrupt['cycle']}) slept "
+             f"till the retry (delays {f.lost_interrupt['delays']}), the sleep was interrupted at t={f.lost_interrupt['interrupted_at']:.3f} by a "
+             f"new event for the object (listings of the kind at {f.lost_interrupt['listings_of_the_kind_then']}: the watch stream was "
+             f"re-established and re-sent the object as it is) without the touch, and NO cycle processed that event: the handlers are "
+             f"never called again, their progress records stay, the last-handled state is never stored",
+             {**rep, "last_handled": base, "essence": f.ess, "annotations": sorted((f.final["metadata"].get("annotations") or {})),
+              "lost": f.lost_interrupt}, SIG_RL)
         out["class"] = "lost-wakeup"
         return out
     if f.lost_wait and not f.blind and (base != f.ess or any(OWN_PREFIX + h.replace("/", ".") in (f.final["metadata"].get("annotations") or {})
@@ -895,6 +945,11 @@ def accumulated(ctx: Ctx, sc: dict, tr: dict, out: dict) -> None:
 
 # ---- the tie: silent tail vs. iterates of the Lean loopStep --------------------------------------------------
 
+def _KEEPALIVE() -> float:
+    from kopf._core.actions import application
+    return float(application.WAITING_KEEPALIVE_INTERVAL)
+
+
 def _keepalive_cap(ctx: Ctx) -> int:
     from kopf._core.actions import application
     return int(round(float(application.WAITING_KEEPALIVE_INTERVAL) * 64))
@@ -1035,6 +1090,22 @@ def abstract_tail(sc: dict, tr: dict, cap: int) -> tuple[list | None, Any]:
             t_trail = cycles.pop()["t0"]
     if not cycles:
         return None, "no-tail-pass"
+    # the object RE-LISTED as it is inside the tail (a `type=None` event that is not the incarnation's first): the model has
+    # a turn for the one shape in which it matters (`loopStepR`): it falls into the sleep of the cycle before (which had
+    # delays, ended right then before the earliest of them elapsed, and sent no touch). Any other re-listed event in the tail
+    # (behind a write whose echo is still to come: a stale view; on a settled object: one more cycle) is skipped, counted
+    relists = []
+    for k, c in enumerate(cycles):
+        if k == 0 or c["event_type"] is not None:
+            continue
+        pv = cycles[k - 1]
+        ap = pv.get("apply") or {}
+        sent = any(r.get("cycle_i") == pv["i"] for r in f.patches)
+        if pv.get("pcc") is None or not ap.get("delays") or sent and not const_patch or ap.get("t_end") is None \
+                or abs(float(ap["t_end"]) - float(c["t0"])) > 1e-9 or str(pv["rv"]) != str(c["rv"]) \
+                or float(ap["t_end"]) >= float(ap["t"]) + min(min(float(d) for d in ap["delays"]), cap / 64.0):
+            return None, "relist-in-tail-outside-a-sleep"
+        relists.append(round(c["t0"] * 64))
     if every_patch and any(dummy(c) and not [i for i in c["invoked"] if (i.get("hid") or i["id"]) in [kid(h) for h in _changing(sc)]] for c in cycles):
         # not modelled (same gap as `const-patch+keepalive`): a cycle on a body that carries the touch-dummy (left by a
         # touch whose operator was killed, or by a keepalive round) in which no handler runs; the constant patch then
@@ -1178,9 +1249,10 @@ def abstract_tail(sc: dict, tr: dict, cap: int) -> tuple[list | None, Any]:
         "resumed": sorted((mb or {}).get("resumed_handlers") or []),
         "prematch": not blind, "now": passes[0]["now"],
         "lat": 1 + round(float((sc.get("echo_delay") or {}).get("default", 0.0)) * 64), "cap": cap, "rtt": 1,
+        "relists": relists,
         "fuel": n + 8, "universe": owned}]
     return req, {"passes": passes, "quiescent": True, "dropped": dropped, "foreign": foreign, "idle": idle_vals is not None,
-                 "carried": carried, "inconsistent": bool(inconsistent)}
+                 "carried": carried, "inconsistent": bool(inconsistent), "relists": len(relists)}
 
 
 def model_view(out: dict, impl: dict) -> dict:
@@ -1399,6 +1471,7 @@ def gen_scenario(rng: Any, i: int) -> dict:
     sc["end"] = t + 48.0 + 1.5 * fail_time + 2 * TQ
     add_spawning(sc, i, 0.12)
     add_configured(sc, i, 0.1)
+    add_relists(sc, i, 0.3)
     return sc
 
 
@@ -1449,6 +1522,46 @@ def add_spawning(sc: dict, i: int, p: float) -> None:
         dt = t - float(sc["t_silence"])
         sc["t_silence"] = t
         sc["end"] = float(sc["end"]) + dt
+
+
+def add_relists(sc: dict, i: int, p: float) -> None:
+    """Delivery timings (the property's quantifier: 'every delivery timing of watch events'; seed C03f): the watch stream is
+    re-established and begins with a LISTING although nothing changed — every object is delivered again as it is (`type=None`,
+    the very resource version the worker has processed last). On a real cluster: 410 Gone after some minutes without events of
+    the kind, a connection lost in the listing phase, un-pausing. 1-4 re-listings (`[t, "relist", "410"|"http410"]`) at moments
+    taken relative to the external operations and to the handlers' scripted delays — i.e. while the framework sleeps till a
+    retry, while a handler runs, in the very tick of an edit / right after it, while the operator is down (no effect), in
+    the silent tail while retries are still outstanding, and after everything has settled. Nothing else of the scenario changes
+    (a generator of its own); the object's versions, `t_silence` and the essential history are what they were."""
+    import random
+    r = random.Random(i * 15485863 + 29)
+    if r.random() >= p:
+        return
+    tl = sc["timeline"]
+    anchors = sorted({float(e[0]) for e in tl} | {float(sc["t_silence"]), 1.0})
+    delays = sorted({float(a[1]) for h in sc["handlers"] for a in h.get("script", []) if isinstance(a, list) and a[0] == "temp"}
+                    | {float(h.get("opts", {}).get("backoff") or 0.0) for h in sc["handlers"] if h.get("script")}
+                    | {float((sc.get("settings") or {}).get("execution.default_backoff") or 0.0)}) or [1.0]
+    t_last = float(sc["end"]) - 3 * float(sc.get("tq", TQ)) - 8.0       # leave the end of the tail to the quiescence clause
+    n = r.choice([1, 1, 2, 2, 3, 4])
+    times = []
+    for _ in range(n):
+        a = r.choice(anchors + [float(sc["t_silence"])] * 2)
+        d = r.choice([x for x in delays if x > 0] or [1.0])
+        k = r.random()
+        if k < 0.6:        # inside a sleep of length d that started around the anchor
+            off = d * r.choice([0.125, 0.25, 0.5, 0.75, 0.875]) + r.choice([0.0, 0.015625, 0.03125, 0.0625])
+        elif k < 0.8:      # around the anchor itself / at the moment the retry is due
+            off = r.choice([0.0, 0.015625, 0.03125, d, d + 0.015625, d - 0.140625, d - 0.15625])
+        else:              # any time later (incl. several retries later, or after everything has settled)
+            off = r.choice([0.5, 2.0, 3.5, 5.0, 7.0, 12.0, 25.0])
+        t = round(max(0.5, min(a + max(off, 0.0), t_last)) * 64) / 64
+        times.append(t)
+    if r.random() < 0.25 and times:      # two re-listings in a row: the second arrives while the first one's cycle sleeps again
+        times.append(min(times[-1] + r.choice([0.25, 1.0, 6.0]), t_last))
+    for t in sorted(set(times)):
+        tl.append([t, "relist", "http410" if r.random() < 0.2 else "410"])
+    sc["family4"] = "relist"
 
 
 DESELECT_FIELDS = ["x", "y", "z"]
@@ -1578,6 +1691,7 @@ def gen_deselect(rng: Any, i: int) -> dict:
     sc["end"] = t + 48.0 + 1.5 * fail_time + 2 * TQ
     add_spawning(sc, i, 0.1)
     add_configured(sc, i, 0.08)
+    add_relists(sc, i, 0.25)
     return sc
 
 
@@ -1652,6 +1766,22 @@ def _evaluate(ctx: Ctx, scenarios: list[dict], tie: bool = True) -> None:
             ctx.count("family_class", f"{sc['family']}:{o['class']}")
         if sc.get("family3"):
             ctx.count("family_class", f"{sc['family3']}:{o['class']}")
+        if sc.get("family4"):
+            ctx.count("family_class", f"relist:{o['class']}")
+            # where the re-listed object found the worker: in a cycle that was sleeping till a retry (the cycle ended right then,
+            # before its delay elapsed and without a touch), in a cycle otherwise busy, or idle
+            for c in tr["cycles"]:
+                if c["event_type"] is None and c["i"] > 0 and c["uid"] is not None:
+                    prev = next((x for x in reversed(tr["cycles"][:c["i"]]) if x["uid"] == c["uid"] and x["inc"] == c["inc"]), None)
+                    if prev is None:
+                        ctx.count("relisted_event", "first event of the incarnation (initial listing)")
+                        continue
+                    ap = prev.get("apply") or {}
+                    same = str(prev.get("rv")) == str(c.get("rv"))
+                    cut = bool(ap.get("delays")) and ap.get("t_end") is not None and abs(float(ap["t_end"]) - float(c["t0"])) < 1e-9 \
+                        and float(ap["t_end"]) < float(ap["t"]) + min(float(d) for d in ap["delays"])
+                    ctx.count("relisted_event", f"{'same version as the last processed' if same else 'newer version'}, "
+                              f"{'interrupts the sleep till a retry' if cut else 'worker not sleeping for a retry'}")
         if sc.get("family2"):
             sp = next((h for h in sc["handlers"] if h["kind"] in ("timer", "daemon")), {})
             relist = any(e[1] == "cut" and len(e) > 2 for e in sc.get("timeline", []))
@@ -1702,6 +1832,9 @@ def _evaluate(ctx: Ctx, scenarios: list[dict], tie: bool = True) -> None:
                     ctx.count("tail_with", "foreign-finalizer")
                 if impl.pop("idle"):
                     ctx.count("tail_with", "idle-patch-fns")
+                nr = impl.pop("relists")
+                if nr:
+                    ctx.count("tail_with", "sleep interrupted by the object re-listed as it is", nr)
                 if impl.pop("inconsistent"):
                     ctx.count("tail_with", "held-back-nonempty-patch")
                 cr = impl.pop("carried")
